@@ -518,8 +518,10 @@ def ids_rules(run, db):
     per_seg = [hrole.get(k_) for k_ in ('all_centers', 'windows', 'local_coords', 'local_masks', 'segment_ids')]
     if IDL is None:
         raise AnalysisError('hexagonal aperture: the constructor stores no segment_ids')
-    rings = [st for st in fh.node.body if isinstance(st, ast.For) and any(isinstance(c_, ast.Call) and isinstance(c_.func, ast.Attribute) and c_.func.attr == 'append'
-                                                                           and ast.unparse(c_.func.value) == IDL for c_ in ast.walk(st))]
+    appends_ids = lambda st: any(isinstance(c_, ast.Call) and isinstance(c_.func, ast.Attribute) and c_.func.attr == 'append' and ast.unparse(c_.func.value) == IDL for c_ in ast.walk(st))
+    appenders = {st.name for st in fh.node.body if isinstance(st, ast.FunctionDef) and appends_ids(st)}          # local closures that record a segment
+    calls_appender = lambda st: any(isinstance(c_, ast.Call) and isinstance(c_.func, ast.Name) and c_.func.id in appenders for c_ in ast.walk(st))
+    rings = [st for st in fh.node.body if isinstance(st, ast.For) and (appends_ids(st) or calls_appender(st))]
     if len(rings) != 1:
         raise AnalysisError('hexagonal aperture: ring loop not found')
     ring = rings[0]
@@ -1194,6 +1196,11 @@ def check(run, db, tier):
                                                                  ('wholeBitAnd', lambda v: v in inv_spiders),
                                                                  # the spider removal spelled as a masked store: mask[spiders] = False
                                                                  ('sub=', lambda v, sl: sl in tainted and v in ('False', '0'))])
+    run.group(_centre_segment_lengths, run, fh, hrole)
+    _rest_of_check(run, db, fh, fk, fc, unp, hrole, krole)
+
+
+def _centre_segment_lengths(run, fh, hrole):
     # hexagonal: before the ring loop, whatever the centre segment's exclusion decides, the per-segment lists have one common length
     # (0 or 1 entries each): decided by following list lengths through the statements ahead of the ring loop, on every branch
     per_seg = [hrole[k_] for k_ in ('all_centers', 'windows', 'local_coords', 'local_masks', 'segment_ids')]
@@ -1245,6 +1252,9 @@ def check(run, db, tier):
     run.check(not bad_states and {tuple(set(st_.values()))[0] for st_ in finals} <= {0, 1}, 'C18.lockstep', fh.qual, 'centre segment',
               'ahead of the ring loop the per-segment lists have one common length on every branch (centre segment kept: 1 entry each, excluded: none)',
               'ahead of the ring loop the per-segment lists have different lengths on some branch: %s -- windows, masks, ids, coordinates and centres are no longer index-aligned' % (bad_states or finals), fh.loc(ring_loop))
+
+
+def _rest_of_check(run, db, fh, fk, fc, unp, hrole, krole):
     # what sits at each returned position is what its role says: decided on the returned value of the builder, interpreted with tokens
     run.group(hex_roles, run, db, fh, fc, unp[0], list(hrole))
     fkc = db.func(S + 'CompositeKeystoneAperture.__init__')
